@@ -56,6 +56,20 @@ def cases(tier, seed):
                                     if inp in CONT and len(z1) + len(z2) > 2:
                                         continue
                                     yield {"circ": circ, "mode": "twostep", "z": z1, "z2": z2, "vk": "monotone"}
+    # products of two DIFFERENT circuits (independent units), integrated over every subset
+    for tree in A.REPRESENTATIVE_TREES[:2] + [("P", [0, 1]), 0]:
+        for prod in ["had", "kro"]:
+            for inp in ["emb", "cat-logits", "gau"]:
+                for k1, k2 in [(2, 3), (3, 2), (2, 2), (1, 2)]:
+                    if prod == "kro" and isinstance(tree, tuple) and len(A.tree_vars(tree)) == 3 and max(k1, k2) > 2:
+                        continue
+                    c1 = dict(tree=tree, prod=prod, style="cpt", nary="dense", kin=k1, ksum=k1, kout=1, inp=inp, numbering="id")
+                    c2 = dict(c1, kin=k2, ksum=k2)
+                    vs = pools.var_ids(tree, "id")
+                    for z in pools.subsets(vs):
+                        if inp == "gau" and len(z) > 1:
+                            continue
+                        yield {"circ": c1, "circ2": c2, "mode": "pair-int", "z": z, "vk": "generic" if inp == "emb" else "monotone"}
     # mixed input kinds, conditioned operands, products
     for tree in A.REPRESENTATIVE_TREES + [("P", [0, 1])]:
         for prod in ["had", "kro"]:
@@ -90,6 +104,9 @@ def pipeline_of(case):
             {"op": "integrate", "args": [1], "scope": case["z2"]},
             {"op": "integrate", "args": [0], "scope": sorted(case["z"] + case["z2"])},
         ]}, [2, 3]
+    if m == "pair-int":
+        spec2 = pools.spec_from(case["circ2"])
+        return {"circuits": [spec, spec2], "ops": [{"op": "multiply", "args": [0, 1]}, {"op": "integrate", "args": [2], "scope": case["z"]}]}, [3]
     if m == "square":
         return {"circuits": [spec], "ops": [{"op": "multiply", "args": [0, 0]}, {"op": "integrate", "args": [1], "scope": case["z"]}]}, [2]
     if m == "evidence":
